@@ -319,7 +319,33 @@ ARRAY_NEIGHBOURS = [
 ]
 
 
+ARRAY_BLANKS = [
+    # an array formula whose result has a blank element (it refers to an empty cell): the member cell shows 0, as
+    # every formula result does, and so must the element of the range
+    ({'sheets': [['Sheet1', {'A1': 1, 'A3': 3}]], 'names': {}, 'arrays': [['Sheet1', 'D1:D3', '=A1:A3']],
+      'calc': None}, 'Sheet1!D1:D3', (1, 0, 3)),
+    ({'sheets': [['Sheet1', {'A1': 1, 'B2': 4}]], 'names': {}, 'arrays': [['Sheet1', 'D1:E2', '=IF(A1:B2>0,A1:B2,A1:B2)']],
+      'calc': None}, 'Sheet1!D1:E2', ((1, 0), (0, 4))),
+]
+
+
 def array_edge_cases(ctx):
+    for spec, text, want in ARRAY_BLANKS:
+        for first in (True, False):
+            comp = wb.compile_mem(spec)
+            if not first:
+                for a in wb.all_addresses(spec):
+                    wb.outcome(comp.evaluate, a)
+            got = wb.outcome(comp.evaluate, text)
+            cells = [wb.outcome(comp.evaluate, f'Sheet1!{c}')[1] for row in wb.range_cells(text.rsplit('!', 1)[1])
+                     for c in row]
+            ctx.count('directed:array_blanks')
+            ctx.case(('array-blanks', text, first))
+            if got[0] != 'v' or not wb.same(got[1], want):
+                ctx.violation('array-formula-range-shows-blank-where-its-cell-shows-0',
+                              f'evaluate({text!r}) ({"first access" if first else "after evaluating every cell"}) of '
+                              f'{{{spec["arrays"][0][2]}}} gives {got!r}; its cells evaluate to {cells!r}',
+                              {'kind': 'array-edge', 'spec': spec, 'path': text})
     for spec, text, want in ARRAY_NEIGHBOURS:
         for first in (True, False):
             comp = wb.compile_mem(spec)
